@@ -1,11 +1,24 @@
 (* C06 — Path validity rules and path/version matching follow the documented rules.
    Property theorems only; each is closed by [exact] of a lemma proved elsewhere.
-   check_module_path = module.CheckPath, check_import_path = module.CheckImportPath,
-   check_file_path = module.CheckFilePath; [None] means the Go function returns nil. *)
-From Verif.Base Require Import Bytes.
-From Verif.Module Require Import Path Match PathProofs.
 
-(* every valid module path is a valid import path, every valid import path a valid file path *)
+   Model (Module/Path.v, Module/Match.v), [None] = the Go function returns nil:
+     check_module_path = module.CheckPath      check_import_path = module.CheckImportPath
+     check_file_path   = module.CheckFilePath  check_path k / check_elem k = checkPath / checkElem
+     split_path_version = module.SplitPathVersion   check = module.Check
+     check_path_major / match_path_major = module.CheckPathMajor (nil) / MatchPathMajor
+     match_prefix_patterns = module.MatchPrefixPatterns     path_match = path.Match
+   Specification (Module/PathSpec.v): valid_elem_impl, valid_path_impl, valid_module_path_impl,
+   suffix_shape, major_matches, glob_spec, written from the doc comments; the deviations of
+   the code from the doc text (D1 = known finding K5, D2, D3, D4) are listed at the top of
+   PathSpec.v and stated below as theorems. *)
+From Verif.Base Require Import Bytes Utf8.
+From Verif.Semver Require Import Model.
+From Verif.Module Require Import Path Match PathSpec PathProofs PathProofsSplit PathProofsSpec
+  PathProofsSpec2 PathProofsDev PathProofsCheck PathProofsMatch PathProofsFuel.
+
+(* ---- 1. every valid module path is a valid import path, every valid import path a valid
+        file path (re-proved against the regenerated character classes) ------------------ *)
+
 Theorem C06_module_sub_import :
   forall p, check_module_path p = None -> check_import_path p = None.
 Proof. exact module_sub_import. Qed.
@@ -19,3 +32,172 @@ Print Assumptions C06_import_sub_file.
 Example C06_chain_nonvacuous :
   check_module_path (B "example.com/a..b/v2") = None /\ check_import_path (B "c++/x") = None.
 Proof. vm_compute. split; reflexivity. Qed.
+
+(* ---- 2. SplitPathVersion: prefix ++ pathMajor = path; the suffix is empty, "/vN" with N >= 2
+        without leading zero, or for gopkg.in ".vN" / ".vN-unstable" ------------------------- *)
+
+Theorem C06_split_spec :
+  forall p pre suf ok,
+    split_path_version p = (pre, suf, ok) ->
+    pre ++ suf = p /\
+    (ok = true ->
+       (~ is_gopkg_in p /\
+        (suf = [] \/
+         exists n, all_digits n /\ no_leading_zero n /\ n <> B "1" /\ suf = B "/v" ++ n))
+       \/ (is_gopkg_in p /\
+           (suf = B ".v0" \/
+            exists n, all_digits n /\ no_leading_zero n /\
+                      (suf = B ".v" ++ n \/ suf = B ".v" ++ n ++ B "-unstable")))) /\
+    (ok = false -> pre = p /\ suf = []).
+Proof. exact split_spec. Qed.
+Print Assumptions C06_split_spec.
+
+(* "N >= 2" numerically *)
+Theorem C06_slash_suffix_value :
+  forall suf, slash_suffix suf ->
+    exists n, suf = B "/v" ++ n /\ all_digits n /\ no_leading_zero n /\ 2 <= numeral_value n.
+Proof. exact slash_suffix_value. Qed.
+Print Assumptions C06_slash_suffix_value.
+
+Example C06_split_nonvacuous :
+  split_path_version (B "example.com/yaml/v2") = (B "example.com/yaml", B "/v2", true) /\
+  split_path_version (B "gopkg.in/yaml.v2-unstable") = (B "gopkg.in/yaml", B ".v2-unstable", true) /\
+  split_path_version (B "example.com/pkg/v1") = (B "example.com/pkg/v1", [], false) /\
+  split_path_version (B "gopkg.in/foo.v-unstable") = (B "gopkg.in/foo.v-unstable", [], false).
+Proof. vm_compute. repeat split; reflexivity. Qed.
+
+(* ---- 3. the checks accept exactly the paths the rules describe ---------------------------------- *)
+
+(* the regenerated character classes are the documented sets *)
+Theorem C06_char_ok_allowed : forall k r, char_ok k r = allowed_char k r.
+Proof. exact char_ok_allowed. Qed.
+Print Assumptions C06_char_ok_allowed.
+
+Theorem C06_check_elem_iff : forall k e, check_elem k e = None <-> valid_elem_impl k e.
+Proof. exact check_elem_iff. Qed.
+Print Assumptions C06_check_elem_iff.
+
+Theorem C06_check_path_iff : forall k p, check_path k p = None <-> valid_path_impl k p.
+Proof. exact check_path_iff. Qed.
+Print Assumptions C06_check_path_iff.
+
+Theorem C06_check_module_path_iff :
+  forall p, check_module_path p = None <->
+            valid_path_impl KModule p /\ first_elem_rule p /\ version_rule p.
+Proof. exact check_module_path_iff. Qed.
+Print Assumptions C06_check_module_path_iff.
+
+(* SplitPathVersion's ok is the "Second" constraint of CheckPath *)
+Theorem C06_split_ok_iff : forall p, snd (split_path_version p) = true <-> version_rule p.
+Proof. exact split_ok_iff. Qed.
+Print Assumptions C06_split_ok_iff.
+
+(* D1 / known finding K5.  The rules literally as documented (with "nor contain two dots in
+   a row") are the implemented ones plus that clause; the code accepts "a..b". *)
+Theorem C06_valid_path_doc_iff :
+  forall k p, valid_path_doc k p <->
+              check_path k p = None /\ Forall (fun e => ~ two_dots_in_a_row e) (split_on 47 p).
+Proof. exact valid_path_doc_iff. Qed.
+Print Assumptions C06_valid_path_doc_iff.
+
+Theorem C06_check_path_dotdot_refuted :
+  forall k, check_path k (B "a..b") = None /\ ~ valid_path_doc k (B "a..b").
+Proof. exact check_path_dotdot_refuted. Qed.
+Print Assumptions C06_check_path_dotdot_refuted.
+
+Theorem C06_check_module_path_dotdot_refuted :
+  check_module_path (B "example.com/a..b") = None /\ ~ valid_module_path_doc (B "example.com/a..b").
+Proof. exact check_module_path_dotdot_refuted. Qed.
+Print Assumptions C06_check_module_path_dotdot_refuted.
+
+(* D3: the leading-dash rule is implemented but not documented *)
+Theorem C06_leading_dash_undocumented :
+  check_import_path (B "-a") = Some ELeadingDash /\ check_elem KImport (B "-a") = None.
+Proof. exact leading_dash_undocumented. Qed.
+Print Assumptions C06_leading_dash_undocumented.
+
+(* two error returns of CheckPath can never be taken *)
+Theorem C06_leading_slash_unreachable : forall p, check_module_path p <> Some ELeadingSlash.
+Proof. exact leading_slash_unreachable. Qed.
+Print Assumptions C06_leading_slash_unreachable.
+
+Theorem C06_first_leading_dash_unreachable : forall p, check_module_path p <> Some EFirstLeadingDash.
+Proof. exact first_leading_dash_unreachable. Qed.
+Print Assumptions C06_first_leading_dash_unreachable.
+
+(* the ASCII shortcut used for strings.EqualFold agrees with the regenerated SimpleFold table *)
+Theorem C06_fold_min_class : forall r, fold_min r = fold_class r.
+Proof. exact fold_min_class. Qed.
+Print Assumptions C06_fold_min_class.
+
+(* ---- 4. Check = valid module path /\ valid version /\ the documented major-version rule ------- *)
+
+Theorem C06_check_iff :
+  forall p v,
+    check p v = None <->
+    check_module_path p = None /\ is_valid v = true /\
+    (let suf := snd (fst (split_path_version p)) in
+     (* no suffix: v0, v1, or +incompatible *)
+     (suf = [] /\ (major v = B "v0" \/ major v = B "v1" \/ build v = B "+incompatible"))
+     (* /vN *)
+     \/ (exists n, all_digits n /\ suf = B "/v" ++ n /\ major v = B "v" ++ n)
+     (* gopkg.in .vN and .vN-unstable, with the v0.0.0- pseudo-version exception for .v1 *)
+     \/ (exists n, all_digits n /\ (suf = B ".v" ++ n \/ suf = B ".v" ++ n ++ B "-unstable") /\
+                   (major v = B "v" ++ n \/ (n = B "1" /\ exists r, v = B "v0.0.0-" ++ r)))).
+Proof. exact check_iff. Qed.
+Print Assumptions C06_check_iff.
+
+Theorem C06_check_path_major_shape_iff :
+  forall p v suf, suffix_shape p suf ->
+    (check_path_major v suf = true <-> major_matches v (major v) (build v) suf).
+Proof. exact check_path_major_shape_iff. Qed.
+Print Assumptions C06_check_path_major_shape_iff.
+
+Theorem C06_match_path_major_iff_check_path_major :
+  forall v pm, match_path_major v pm = true <-> check_path_major v pm = true.
+Proof. exact match_path_major_iff_check_path_major. Qed.
+Print Assumptions C06_match_path_major_iff_check_path_major.
+
+Example C06_check_nonvacuous :
+  check (B "example.com/yaml/v2") (B "v2.1.0") = None /\
+  check (B "example.com/yaml") (B "v3.0.0+incompatible") = None /\
+  check (B "gopkg.in/check.v1") (B "v0.0.0-20161208181325-20d25e280405") = None /\
+  check (B "example.com/yaml/v2") (B "v3.0.0") = Some CEMajorMismatch /\
+  check (B "example.com/yaml") (B "v1") = None.   (* Check does not ask for a canonical version *)
+Proof. vm_compute. repeat split; reflexivity. Qed.
+
+(* ---- 5. MatchPrefixPatterns is the documented prefix-glob definition, for every matcher ------- *)
+
+Theorem C06_match_prefix_patterns_spec :
+  forall (pmatch : str -> str -> bool) globs target,
+    match_prefix_patterns_with pmatch globs target = true <->
+    exists items item glob elems rest,
+      (* the comma-separated list *)
+      (forall i, In i items -> ~ In 44 i) /\ join_comma items = globs /\ In item items /\
+      (* one trailing slash of the pattern is ignored; empty patterns are ignored *)
+      (item = glob ++ [47] \/ (item = glob /\ forall a, glob <> a ++ [47])) /\ glob <> [] /\
+      (* the path prefix of target with as many elements as the pattern *)
+      (forall e, In e elems -> ~ In 47 e) /\ elems <> [] /\
+      (target = join_slash elems \/ target = join_slash elems ++ 47 :: rest) /\
+      length elems = S (length (filter (fun c => c =? 47) glob)) /\
+      pmatch glob (join_slash elems) = true.
+Proof. exact match_prefix_patterns_spec. Qed.
+Print Assumptions C06_match_prefix_patterns_spec.
+
+(* the matcher the code uses is path.Match with its error dropped (malformed patterns never match) *)
+Theorem C06_match_prefix_patterns_path_match :
+  forall globs target,
+    match_prefix_patterns globs target = true <-> glob_spec path_match_bool globs target.
+Proof. exact match_prefix_patterns_path_match. Qed.
+Print Assumptions C06_match_prefix_patterns_path_match.
+
+(* the model of path.Match is total: its fuel never runs out *)
+Theorem C06_path_match_no_fuel : forall pattern name, path_match pattern name <> MFuel.
+Proof. exact path_match_no_fuel. Qed.
+Print Assumptions C06_path_match_no_fuel.
+
+Example C06_globs_nonvacuous :
+  match_prefix_patterns (B "*.corp.example.com,,rsc.io/private/") (B "rsc.io/private/quux") = true /\
+  match_prefix_patterns (B "[,rsc.io/priv") (B "rsc.io/private") = false /\
+  path_match (B "[a-c]*/\?") (B "bxx/?") = MOk true /\ path_match (B "a[") (B "b") = MBad.
+Proof. vm_compute. repeat split; reflexivity. Qed.
